@@ -137,7 +137,8 @@ static bool relevant(const std::string& prop, const std::string& vprops, const C
     // a stored value that differs from the model after an operation that was not asked to write it has been
     // overwritten while alive (the only way the clause is observable for trivial value types)
     if (prop == "C06") return has_prop(vprops, "VAL") && !is_ref_op(k);
-    if (prop == "C09") return generic && (is_pair_op(k) || e.seen_pair_op);
+    // (an AddressSanitizer report inside a copy/move/swap counts as well: the operation did not produce an independent copy)
+    if (prop == "C09") return (generic && (is_pair_op(k) || e.seen_pair_op)) || (mem && is_pair_op(k));
     if (prop == "C10") return (generic || mem) && (k == O_RS || e.fill_phase);
     if (prop == "C11") return (generic && is_ref_op(k)) || false;
     if (prop == "C12") return (generic || mem) && is_elem_op(k);
